@@ -273,7 +273,10 @@ parameter block followed by a field) parses to `a, Object{6}, Parameter(p), v, x
 (space × 2) writes `a={⏎  [[p]⏎  v]=x⏎  y⏎}` — the value's epilogue left the machine waiting for a
 `=`, which lands in front of the next key —, and that text parses to a DIFFERENT tape: a mixed
 object with the stray `=` as a scalar.  The model reproduces the implementation's behaviour (the
-correspondence check agrees on it); this is the negative counterpart of `C14_roundtrip`. -/
+correspondence check agrees on it); this is the negative counterpart of `C14_roundtrip`. 
+The input is the document `WriterExamples.kParamScalar : FFields` (4th conjunct), and that document is NOT
+`FPlainF` (5th: the `paramVal` conjunct `fcntF rest = 0` fails) — it sits in the set `C14_roundtrip_full` excludes,
+and the two tapes above differ, so the exclusion is needed. -/
 theorem C14_known_param_scalar_breaks :
     TextTape.parse [97, 61, 123, 32, 91, 91, 112, 93, 32, 118, 32, 93, 32, 120, 61, 121, 32, 125] =
       .ok [.unquoted ⟨18, [97]⟩, .object 6 false, .parameter ⟨12, [112]⟩, .unquoted ⟨9, [118]⟩,
@@ -283,14 +286,18 @@ theorem C14_known_param_scalar_breaks :
       some [97, 61, 123, 10, 32, 32, 91, 91, 112, 93, 10, 32, 32, 118, 93, 61, 120, 10, 32, 32, 121, 10, 125] ∧
     TextTape.parse [97, 61, 123, 10, 32, 32, 91, 91, 112, 93, 10, 32, 32, 118, 93, 61, 120, 10, 32, 32, 121, 10, 125] =
       .ok [.unquoted ⟨23, [97]⟩, .object 8 true, .parameter ⟨15, [112]⟩, .unquoted ⟨10, [118]⟩, .mixedContainer,
-           .unquoted ⟨8, [61]⟩, .unquoted ⟨7, [120]⟩, .unquoted ⟨3, [121]⟩, .endTok 1] false := by
-  refine ⟨by decide +kernel, by decide +kernel, by decide +kernel⟩
+           .unquoted ⟨8, [61]⟩, .unquoted ⟨7, [120]⟩, .unquoted ⟨3, [121]⟩, .endTok 1] false ∧
+    TextTape.frenderF WriterExamples.kParamScalar = [97, 61, 123, 32, 91, 91, 112, 93, 32, 118, 32, 93, 32, 120, 61, 121, 32, 125] ∧
+    ¬ FPlainF false WriterExamples.kParamScalar := by
+  refine ⟨by decide +kernel, by decide +kernel, by decide +kernel, by decide +kernel, WriterExamples.kParamScalar_not_plain⟩
 
 /-- Known finding `roundtrip-mixed-nested-operator`, on the models: `a={ 1 k={ b>c } }` (an object
 with a non-`=` operator nested in an array that turned into key-value pairs) parses to `… b, Op(>), c
 …`; `writeTape` writes the nested field as `b>=c` — inside the nested object `write_operator` still
 takes the mixed branch (mixed mode is only cleared by `write_end`), so the value's preamble adds
-`=` —, and that text parses to a tape in which the operator has silently become `>=`. -/
+`=` —, and that text parses to a tape in which the operator has silently become `>=`. 
+The input is `WriterExamples.kNestedOperator : FFields` (4th conjunct), which is NOT `FPlainF` (5th: inside the
+window `w = true` the conjunct `w = true → o = .eq` of the nested field fails). -/
 theorem C14_known_mixed_nested_operator_breaks :
     TextTape.parse [97, 61, 123, 32, 49, 32, 107, 61, 123, 32, 98, 62, 99, 32, 125, 32, 125] =
       .ok [.unquoted ⟨17, [97]⟩, .array 11 true, .unquoted ⟨13, [49]⟩, .mixedContainer, .unquoted ⟨11, [107]⟩,
@@ -304,15 +311,18 @@ theorem C14_known_mixed_nested_operator_breaks :
         10, 125] =
       .ok [.unquoted ⟨26, [97]⟩, .array 11 true, .unquoted ⟨20, [49]⟩, .mixedContainer, .unquoted ⟨18, [107]⟩,
            .operator .eq, .object 10 false, .unquoted ⟨10, [98]⟩, .operator .ge, .unquoted ⟨7, [99]⟩, .endTok 6,
-           .endTok 1] false := by
-  refine ⟨by decide +kernel, by decide +kernel, by decide +kernel⟩
+           .endTok 1] false ∧
+    TextTape.frenderF WriterExamples.kNestedOperator = [97, 61, 123, 32, 49, 32, 107, 61, 123, 32, 98, 62, 99, 32, 125, 32, 125] ∧
+    ¬ FPlainF false WriterExamples.kNestedOperator := by
+  refine ⟨by decide +kernel, by decide +kernel, by decide +kernel, by decide +kernel, WriterExamples.kNestedOperator_not_plain⟩
 
 /-- Known finding `roundtrip-empty-first-element`, on the models: `a={ { {} } x }` parses to an array
 whose first element is an empty array (`a, Array{5}, Array{3}, End, x, End`); `writeTape` (space × 2)
 writes that element as `{ }` directly behind the opening brace, where the parser — the kind of the
 container not being known yet — drops it as a ghost object: the re-parsed tape has lost the element.
 An ambiguity of the text format itself: an empty container in first position can only be written as
-`{ {} }`. -/
+`{ {} }`. 
+The input is `WriterExamples.kEmptyFirst : FFields` (4th conjunct), which is NOT `FPlainF` (5th: `emptyC first = false` fails). -/
 theorem C14_known_empty_first_element_breaks :
     TextTape.parse [97, 61, 123, 32, 123, 32, 123, 125, 32, 125, 32, 120, 32, 125] =
       .ok [.unquoted ⟨14, [97]⟩, .array 5 false, .array 3 false, .endTok 2, .unquoted ⟨3, [120]⟩, .endTok 1] false ∧
@@ -320,12 +330,15 @@ theorem C14_known_empty_first_element_breaks :
         (State.init 32 2)).toOption.map (·.out) =
       some [97, 61, 123, 10, 32, 32, 123, 32, 125, 10, 32, 32, 120, 10, 125] ∧
     TextTape.parse [97, 61, 123, 10, 32, 32, 123, 32, 125, 10, 32, 32, 120, 10, 125] =
-      .ok [.unquoted ⟨15, [97]⟩, .array 3 false, .unquoted ⟨3, [120]⟩, .endTok 1] false := by
-  refine ⟨by decide +kernel, by decide +kernel, by decide +kernel⟩
+      .ok [.unquoted ⟨15, [97]⟩, .array 3 false, .unquoted ⟨3, [120]⟩, .endTok 1] false ∧
+    TextTape.frenderF WriterExamples.kEmptyFirst = [97, 61, 123, 32, 123, 32, 123, 125, 32, 125, 32, 120, 32, 125] ∧
+    ¬ FPlainF false WriterExamples.kEmptyFirst := by
+  refine ⟨by decide +kernel, by decide +kernel, by decide +kernel, by decide +kernel, WriterExamples.kEmptyFirst_not_plain⟩
 
 /-- Known finding `roundtrip-header-empty-body`, on the models: `a=rgb { {} }` parses to
 `a, Header(rgb), Array{3}, End`; `writeTape` writes `a=rgb { }`, which re-parses as the plain scalar
-`rgb` followed by a ghost object: header and container are gone. -/
+`rgb` followed by a ghost object: header and container are gone. 
+The input is `WriterExamples.kHeaderEmpty : FFields` (4th conjunct), which is NOT `FPlainF` (5th: `emptyC body = false` fails). -/
 theorem C14_known_header_empty_body_breaks :
     TextTape.parse [97, 61, 114, 103, 98, 32, 123, 32, 123, 125, 32, 125] =
       .ok [.unquoted ⟨12, [97]⟩, .header ⟨10, [114, 103, 98]⟩, .array 3 false, .endTok 2] false ∧
@@ -333,8 +346,10 @@ theorem C14_known_header_empty_body_breaks :
         (State.init 32 2)).toOption.map (·.out) =
       some [97, 61, 114, 103, 98, 32, 123, 32, 125] ∧
     TextTape.parse [97, 61, 114, 103, 98, 32, 123, 32, 125] =
-      .ok [.unquoted ⟨9, [97]⟩, .unquoted ⟨7, [114, 103, 98]⟩] false := by
-  refine ⟨by decide +kernel, by decide +kernel, by decide +kernel⟩
+      .ok [.unquoted ⟨9, [97]⟩, .unquoted ⟨7, [114, 103, 98]⟩] false ∧
+    TextTape.frenderF WriterExamples.kHeaderEmpty = [97, 61, 114, 103, 98, 32, 123, 32, 123, 125, 32, 125] ∧
+    ¬ FPlainF false WriterExamples.kHeaderEmpty := by
+  refine ⟨by decide +kernel, by decide +kernel, by decide +kernel, by decide +kernel, WriterExamples.kHeaderEmpty_not_plain⟩
 
 /-- **C14, the positive theorem over the text-tape slice's one document type.**  For EVERY document
 `d : JFields` under every valid layout (`JValidF d gt`: arbitrary blanks / comments in every gap,
